@@ -270,7 +270,7 @@ def job(arg):
 
 def run(tier, seed):
     v = Verdict(PID, tier, seed)
-    T4, T8 = 4096, 256          # tolerances 2^-4 and 2^-8 at scale 2^16
+    T4, T8, T12 = 4096, 256, 16          # tolerances 2^-4, 2^-8 and 2^-12 at scale 2^16
     if tier == 'quick':
         jobs = [
             ('acyclic', 'chain', [2], [(1, 0), (100, 0)], ['A1'], 0, seed),
@@ -282,6 +282,8 @@ def run(tier, seed):
             ('cyclic', 'cyc2', [0, 8], [(1, T4), (3, T4), (100, T4)], None, 4, seed),
             ('cyclic', 'cycr', [3], [(2, T4), (100, T4)], None, 4, seed),
             ('cyclic', 'cyc3', [0], [(100, T4), (4, T8)], None, 4, seed),
+            # values which are large next to the tolerance (|value| > 10^5 x tolerance)
+            ('cyclic', 'cyc2', [4000], [(100, T12), (3, T12)], None, 4, seed),
         ]
     else:
         jobs = []
@@ -299,6 +301,8 @@ def run(tier, seed):
         for name in W.WORKBOOKS_CYC:
             jobs.append(('cyclic', name, [0, 3, 8], [(1, T4), (2, T4), (3, T4), (100, T4), (100, T8), (5, T8)],
                          None, 4, seed))
+        jobs.append(('cyclic', 'cyc2', [4000, 3], [(100, T12), (3, T12), (100, T4)], None, 4, seed))
+        jobs.append(('cyclic', 'cyc3', [4000], [(100, T12), (5, T12)], None, 4, seed))
     results = parallel.run_jobs(job, jobs)
     for r in results:
         v.tlc_runs.append(r['tlc'])
